@@ -63,6 +63,17 @@ def cases(draw, tier):
     ids = draw(st.sampled_from(["simple", "simple", "unicode"]))
     spec = draw(gen.table_specs(tier, values=kind, distinct=distinct, md=True,
                                 history=True, ids=ids))
+    # which axes carry metadata is drawn explicitly (every combination
+    # matters for two-axis reorderings), with one value unique to each ID
+    pat = draw(st.sampled_from(["as-drawn", "as-drawn", "both", "obs-only",
+                                "samp-only", "none"]))
+    if pat != "as-drawn":
+        spec["obs_md"] = [{"k": "ov%d" % i, "grp": "g%d" % (i % 2)}
+                          for i in range(len(spec["obs"]))] \
+            if pat in ("both", "obs-only") else None
+        spec["samp_md"] = [{"k": "sv%d" % i, "n": i % 3}
+                           for i in range(len(spec["samp"]))] \
+            if pat in ("both", "samp-only") else None
     return {"table": spec, "op": draw(OPS)}
 
 
@@ -160,7 +171,7 @@ def check(case, rec):
         msg = agree(back, ref, "perm then inverse perm")
         if msg:
             raise Violation("perm-roundtrip", msg)
-        _unchanged(t, before, "sort_order")
+        _unchanged(t, before, "sort_order", r)
         rec.nt(order != ids and _distinct_vectors(ref, axis))
         return
 
@@ -183,7 +194,7 @@ def check(case, rec):
         if f is None:
             _natural(got)
         _relational(before, after, _ident(ref.obs), _ident(ref.samp), "sort")
-        _unchanged(t, before, "sort")
+        _unchanged(t, before, "sort", r)
         rec.nt(order != ids and _distinct_vectors(ref, axis))
         return
 
@@ -202,7 +213,7 @@ def check(case, rec):
         msg = agree(back, ref, "transpose twice")
         if msg:
             raise Violation("transpose-roundtrip", msg)
-        _unchanged(t, before, "transpose")
+        _unchanged(t, before, "transpose", r)
         rec.nt(len(ref.obs) != len(ref.samp) or
                ref.rows != want.rows)
         return
@@ -244,11 +255,26 @@ def _natural(order):
                             "as %r in %r" % (pre, nums, order))
 
 
-def _unchanged(t, before, what):
+def _unchanged(t, before, what, result=None):
     after = observe.snapshot(t)
     if after != before:
         raise Violation("receiver-changed", "%s changed its receiver: %r -> "
                         "%r" % (what, before, after))
+    if result is not None and result is not t and not result.is_empty():
+        # each ID keeps its *own* metadata: editing the metadata of the
+        # result through the table API must not reach the receiver
+        for axis in ("observation", "sample"):
+            ids = [str(i) for i in result.ids(axis=axis)]
+            result.add_metadata({ids[0]: {"k": "edited", "added": 1}},
+                                axis=axis)
+        result.del_metadata(keys=["grp", "n"], axis="whole")
+        after = observe.snapshot(t)
+        if after != before:
+            raise Violation("metadata-shared-with-result", "editing the "
+                            "metadata of the table returned by %s changed "
+                            "the receiver's: %r -> %r" %
+                            (what, (before["obs_md"], before["samp_md"]),
+                             (after["obs_md"], after["samp_md"])))
 
 
 def _align(case, op, t, before, ref, rec):
@@ -290,7 +316,7 @@ def _align(case, op, t, before, ref, rec):
         raise Violation("order", "align_to(%r): ids %r / %r, expected %r / %r"
                         % (axis, after["obs"], after["samp"], want_o, want_s))
     _relational(before, after, _ident(ref.obs), _ident(ref.samp), "align_to")
-    _unchanged(t, before, "align_to")
+    _unchanged(t, before, "align_to", r)
     if observe.snapshot(other) != other_before:
         raise Violation("argument-changed", "align_to changed `other`")
     rec.nt((al_o and want_o != before["obs"] and
